@@ -246,3 +246,31 @@ def pick_doc(rng, default="en", p_pool=0.45, p_corpus=0.2, p_damage=0.35):
         t = truncate_at(t, 120)
         label += "+cap"
     return label, t
+
+
+def dialect_docs():
+    """One document per dialect of the language table using EVERY listed keyword once (longest first
+    within a role, so that keywords which are prefixes of others are exercised): hash-seed / order
+    sensitivity of keyword matching shows as a different result in another interpreter."""
+    if "dialects" not in _cache:
+        out = []
+        for lang, spec in sorted(languages().items()):
+            L = ["# language: " + lang, spec["feature"][-1] + ": f"]
+            if spec.get("background"):
+                L += ["  " + spec["background"][0] + ": b"]
+                L += ["    " + k + "bg step" for k in spec["given"][:1]]
+            for si, sk in enumerate(spec["scenario"] + spec["scenarioOutline"]):
+                L.append("  " + sk + ": s%d" % si)
+                if si == 0:
+                    for role in ("given", "when", "then", "and", "but"):
+                        for k in sorted(set(spec[role]), key=lambda x: (-len(x), x)):
+                            L.append("    " + k + "text of " + role)
+                else:
+                    L.append("    " + spec["given"][-1] + "x <a>")
+                if sk in spec["scenarioOutline"]:
+                    L += ["    " + spec["examples"][0] + ":", "      | a |", "      | 1 |"]
+            for rk in spec.get("rule", [])[:1]:
+                L += ["  " + rk + ": r", "    " + spec["scenario"][0] + ": in rule", "      " + spec["then"][-1] + "y"]
+            out.append(("dialect/" + lang, "\n".join(L) + "\n"))
+        _cache["dialects"] = out
+    return _cache["dialects"]
